@@ -68,6 +68,9 @@ type Item struct {
 	Seq     string `json:"seq,omitempty"` // err | nil | batch
 	Txs     []int  `json:"txs,omitempty"` // transaction pool ids
 	Ts      int64  `json:"ts,omitempty"`  // batch timestamp, milliseconds after the base instant
+	// ZeroTs: the response carries the zero time.Time (the Timestamp field of the response was never set: year 1, far
+	// outside what UnixNano can represent); Ts must then be ZeroTimeMs, the same instant on the model's scale
+	ZeroTs bool `json:"zero_ts,omitempty"`
 	ExecErr bool   `json:"exec_err,omitempty"`
 	// Seq == "err": the class of the error GetNextBatch returns (seqErr): 0 = by item index (the form of every
 	// older replay), 1 plain, 2 context.DeadlineExceeded, 3 wraps context.Canceled, 4 wraps ErrNoBatch,
@@ -181,6 +184,20 @@ const baseNano = int64(1_700_000_000) * 1_000_000_000 // the base instant
 const ChainID = "c01-chain"
 
 func msToTime(ms int64) time.Time { return time.Unix(0, baseNano+ms*1_000_000) }
+
+// EpochMs is the unix epoch (1970-01-01) on the scale of Item.Ts; timestamps down to about EpochMs - 7e12 (the 18th
+// century) are representable as int64 nanoseconds.  ZeroTimeMs is the zero time.Time (January 1, year 1) on that scale.
+const EpochMs = -baseNano / 1_000_000
+
+var ZeroTimeMs = time.Time{}.Unix()*1000 + EpochMs
+
+// the timestamp of the response to item it
+func (it *Item) stamp() time.Time {
+	if it.ZeroTs {
+		return time.Time{}
+	}
+	return msToTime(it.Ts)
+}
 func timeToMs(t time.Time) int64  { return (t.UnixNano() - baseNano) / 1_000_000 }
 func nanoToMs(n uint64) int64     { return (int64(n) - baseNano) / 1_000_000 }
 
@@ -291,7 +308,7 @@ func (s *seqDouble) GetNextBatch(ctx context.Context, req coresequencer.GetNextB
 		if s.idx%2 == 0 {
 			return nil, nil
 		}
-		return &coresequencer.GetNextBatchResponse{Batch: nil, Timestamp: msToTime(it.Ts)}, nil
+		return &coresequencer.GetNextBatchResponse{Batch: nil, Timestamp: it.stamp()}, nil
 	}
 	var txs [][]byte
 	for _, id := range it.Txs {
@@ -302,7 +319,7 @@ func (s *seqDouble) GetNextBatch(ctx context.Context, req coresequencer.GetNextB
 	}
 	s.gave = append(s.gave, s.idx)
 	s.w.Or.gaveBatch(it)
-	return &coresequencer.GetNextBatchResponse{Batch: &coresequencer.Batch{Transactions: txs}, Timestamp: msToTime(it.Ts), BatchData: cursorBytes(CursorID(s.idx))}, nil
+	return &coresequencer.GetNextBatchResponse{Batch: &coresequencer.Batch{Transactions: txs}, Timestamp: it.stamp(), BatchData: cursorBytes(CursorID(s.idx))}, nil
 }
 
 // NSeqErrKinds is the number of explicit error classes of seqErr.
